@@ -686,8 +686,27 @@ func (r *RowCache) uuidsByConditionsAsIndexes(conditions []ovsdb.Condition, nati
 		if err != nil {
 			return nil, err
 		}
-		for _, conditions := range conditions {
-			err := info.SetField(conditions.column, conditions.nativeValue)
+		for _, condition := range conditions {
+			value := condition.nativeValue
+			if len(condition.keys) > 0 {
+				// several conditions can each give some of the keys of one
+				// map column: keep what the earlier ones gave
+				if current, err := info.FieldByColumn(condition.column); err == nil {
+					cur := reflect.ValueOf(current)
+					if cur.Kind() == reflect.Map && cur.Len() > 0 && cur.Type() == reflect.TypeOf(value) {
+						merged := reflect.MakeMap(cur.Type())
+						for _, k := range cur.MapKeys() {
+							merged.SetMapIndex(k, cur.MapIndex(k))
+						}
+						add := reflect.ValueOf(value)
+						for _, k := range add.MapKeys() {
+							merged.SetMapIndex(k, add.MapIndex(k))
+						}
+						value = merged.Interface()
+					}
+				}
+			}
+			err := info.SetField(condition.column, value)
 			if err != nil {
 				return nil, err
 			}
